@@ -107,6 +107,13 @@ class FramingModel:
             return None
         hl = shared.header_lookup_atom(facts, c)
         if hl is not None and hl[0] in HEADERS:
+            if c[0] == "scalar":
+                v0 = c[1]
+                while v0 and v0[0] == "unop" and v0[1] == "Not":
+                    v0 = v0[2]
+                if v0 and v0[0] == "call" and re.search(r"HeaderField::equiv$|eq_ignore_ascii_case$", v0[1]):
+                    # the name of ONE header of the list is compared: the list is being scanned
+                    self.scan_headers.add(hl[0])
             return (("present", hl[0]), hl[1])
         if c[0] == "variant":
             name, cur = c[2], c[3]
